@@ -5,6 +5,10 @@ CONSTANTS
   Fams = {2, 3, 4, 5, 6, 7, 8}
   AllowDeps = FALSE
   D = 1
+  Ste = "identity"
+  TVals = {0}
+  KFull = 1
+  KMax = 1
 INVARIANT InvWellFormed
 INVARIANT InvNonNeg
 PROPERTY StepMonotone
@@ -15,3 +19,7 @@ INVARIANT InvOpenIsOriginal
 INVARIANT InvDiscOpen
 INVARIANT InvDiscIntegral
 INVARIANT InvDiscBounded
+INVARIANT InvDiscSteSupport
+INVARIANT InvDiscSteKaZero
+INVARIANT InvSizeChangeRaisesCost
+INVARIANT InvDiscRelevant
